@@ -5135,6 +5135,11 @@ class DfaCompileCtx:
             # (an inverted character class lists End among the symbols it rejects)
             if DFTransition.End in transition.on_values:
                 continue
+            # with an end function the end of input takes this transition too when it gets there through Else, and there it
+            # has to keep falling through (end() does not take a consuming transition it finds through Else)
+            if ProgramData.do(ProgramFlag.EOF_SUPPORT) and DFTransition.Else in transition.on_values \
+                    and not isinstance(orig_state, DFConditionPoint) and orig_state[DFTransition.End] is transition:
+                continue
 
             # Are there actions? If so, does this violate the threshold
             if len(next_target.actions) > 0:
